@@ -813,11 +813,12 @@ func checkLongLivedRefs(c *report.Ctx) {
 				if !holds(f.Type()) {
 					continue
 				}
+				fname := an.FieldName(named, f.Name()) // (a field recognised as renamed is seen under its pinned name)
 				// back pointers inside the state objects belong to the object graph that is dropped
-				if strings.HasSuffix(tn, "State") && (f.Name() == "runtime" || f.Name() == "agent") {
+				if strings.HasSuffix(tn, "State") && (fname == "runtime" || fname == "agent") {
 					continue
 				}
-				got[tn+"."+f.Name()] = true
+				got[tn+"."+fname] = true
 			}
 		}
 	}
